@@ -143,6 +143,12 @@ class Survey:
                 if has_z:
                     d["z"] = "%.6f" % z
                 d["fix"] = {1: "z", 2: "xy", 3: "xyz"}[self.dim]
+            elif p["role"] == "unkz":
+                # horizontal position fixed, height unknown
+                d["x"], d["y"] = "%.6f" % x, "%.6f" % y
+                if p["approx"] == "given":
+                    d["z"] = "%.6f" % (z + pz)
+                d["fix"], d["adj"] = "xy", "z"
             else:
                 if p["approx"] in ("given", "omit_z") and has_xy:
                     d["x"], d["y"] = "%.6f" % (x + px), "%.6f" % (y + py)
@@ -468,14 +474,15 @@ def apply_edit(sv, e):
             p["con"] = {1: False, 2: i == 0, 3: i < 2, 4: True, 5: "z", 6: ("xy" if i < 2 else False)}[m]
     elif k == "WeakPoint":
         a, b = s.pts[0], s.pts[1]
-        wid = "0W" if e["s"] == 1 else "W"
+        wid = "0W" if e["s"] in (1, 3) else "W"
+        wsd = 20000.0 if e["s"] <= 2 else 200000.0
         s.pts.append(dict(id=wid, e=a["e"] + 130.0, n=a["n"] - 70.0, u=a["u"] + 20.0, role="unk", con=False, approx="given", pert=(0.0, 0.0, 0.0)))
         s.names[wid] = wid
         if s.dim == 1:
-            new = [dict(t="dh", fr=wid, to=a["id"], to2="", k=len(s.obs), fdh=0.0, tdh=0.0, swap=False, passive=False, sd=20000.0)]
+            new = [dict(t="dh", fr=wid, to=a["id"], to2="", k=len(s.obs), fdh=0.0, tdh=0.0, swap=False, passive=False, sd=wsd)]
         else:
-            new = [dict(t="distance", fr=wid, to=q["id"], to2="", k=len(s.obs) + i, fdh=0.0, tdh=0.0, swap=False, passive=False, sd=20000.0) for i, q in enumerate((a, b))]
-        s.obs = new + s.obs if e["s"] == 1 else s.obs + new
+            new = [dict(t="distance", fr=wid, to=q["id"], to2="", k=len(s.obs) + i, fdh=0.0, tdh=0.0, swap=False, passive=False, sd=wsd) for i, q in enumerate((a, b))]
+        s.obs = new + s.obs if e["s"] in (1, 3) else s.obs + new
     elif k == "LoneSet":
         first, second, last = s.pts[0]["id"], s.pts[1]["id"], s.pts[-1]["id"]
         s.lonesets = list(sv.lonesets) + [{1: (first, second, 1), 2: (first, second, 2), 3: (first, last, 3), 4: (last, first, 2)}[e["s"]]]
@@ -692,7 +699,7 @@ def check_truth(P, sv, report, tol=2e-6):
     if P["outcome"] != "adjusted":
         report("truth_outcome", "consistent network not adjusted: %s" % P["outcome"])
         return
-    unk = [p for p in sv.pts if p["role"] == "unk"]
+    unk = [p for p in sv.pts if p["role"] in ("unk", "unkz")]
     for p in unk:
         got = P["pts"].get(p["id"])
         if got is None:
